@@ -305,6 +305,38 @@ func c09settle(before map[uint64]bool, bound time.Duration, runaway func() bool)
 	}
 }
 
+// c09parkedOrGone waits until the run has parked a goroutine (true) or no interpreted goroutine
+// created since `before` is left (false). No timing decides: only the bound ends the wait.
+func c09parkedOrGone(r *c09run, before map[uint64]bool, bound time.Duration) bool {
+	t0 := time.Now()
+	sleep := 50 * time.Microsecond
+	for {
+		select {
+		case <-r.parkedCh:
+			return true
+		default:
+		}
+		n := 0
+		for _, g := range c09dump() {
+			if !before[g.id] && strings.Contains(g.stack, "yaegi/interp.") {
+				n++
+			}
+		}
+		if n == 0 || time.Since(t0) > bound {
+			select {
+			case <-r.parkedCh:
+				return true
+			default:
+			}
+			return false
+		}
+		time.Sleep(sleep)
+		if sleep < 2*time.Millisecond {
+			sleep *= 2
+		}
+	}
+}
+
 func c09ids() map[uint64]bool {
 	m := map[uint64]bool{}
 	for _, g := range c09dump() {
@@ -425,10 +457,7 @@ func c09runJob(j c09job) (res c09res) {
 	r.mu.Unlock()
 	if j.Kind == "expired" {
 		// the evaluation goroutine is either parked before its first operation or will never execute one
-		select {
-		case <-r.parkedCh:
-		case <-time.After(300 * time.Millisecond):
-		}
+		c09parkedOrGone(r, before, c09ExitBound)
 	}
 	if j.Post != "" {
 		g := c09gid()
